@@ -86,7 +86,7 @@ Proof.
   pose proof (strtod_sign_prefix minus _ _ _ _ TS2 ST2) as ST3.
   assert (HC : hy_complex U s = Some (mant_value ip1 fp1 ex1,
                FFin minus (digits_value 10 (ip2 ++ frac_digits fp2)) (expo_value ex2 - Z.of_nat (length (frac_digits fp2))))).
-  { apply hy_complex_fin; [| intros; reflexivity | intros; reflexivity].
+  { apply hy_complex_fin; [| apply num_char_noi; exact NC | exact I | exact I].
     unfold py_complex. rewrite SS, TA, SU. unfold complex_inner.
     rewrite cx_open_plain by (destruct s; [exact I | exact FS]).
     unfold cx_body. rewrite ST. unfold tl at 1.
